@@ -96,8 +96,23 @@ func init() {
 		if !strings.HasPrefix(v.Oracle, "differ-") || v.CallID < 0 {
 			return false
 		}
-		for _, c := range worldCalls(w) {
-			if c.call.ID == v.CallID && (c.call.API == scen.APISnapshot || c.call.API == scen.APIYAML) && hasLine(c.text, "/-/-/-/") {
+		// the violating call itself, or the call that recorded the value of the same
+		// slot's file for the same test, carries the token
+		calls := worldCalls(w)
+		var me *callRef
+		for i := range calls {
+			if calls[i].call.ID == v.CallID && calls[i].life == v.Life {
+				me = &calls[i]
+			}
+		}
+		for _, c := range calls {
+			if c.call.API != scen.APISnapshot && c.call.API != scen.APIYAML {
+				continue
+			}
+			if !hasLine(c.text, "/-/-/-/") {
+				continue
+			}
+			if c.call.ID == v.CallID || (me != nil && c.file == me.file && c.test == me.test) {
 				return true
 			}
 		}
